@@ -112,6 +112,13 @@ class Ctx:
         open(os.path.join(self.inc, 'scientificconfig.h'), 'w').write(s)
         # include shim for <scientific/xxx.h> style includes
         os.symlink(SRC, os.path.join(self.inc, 'scientific'))
+        # file-local worker-argument structs, extracted textually from the current sources (lsv_structs_<tu>.h)
+        for tu in ('matrix', 'metricspace', 'clustering', 'modelvalidation'):
+            try: src = open(os.path.join(SRC, tu + '.c')).read()
+            except OSError: continue
+            out = ['/* generated from /repo/src/%s.c on every run */' % tu]
+            for m in re.finditer(r'typedef\s+struct\s*\{[^{}]*\}\s*\w+\s*;', src): out.append(m.group(0))
+            open(os.path.join(self.inc, 'lsv_structs_%s.h' % tu), 'w').write('\n'.join(out) + '\n')
 
     def cleanup(self):
         shutil.rmtree(self.work, ignore_errors=True)
@@ -198,7 +205,7 @@ class Ctx:
         def build():
             out = os.path.join(self.work, f'n_{tu}.o')
             san = [] if tu == 'datasets' else ['-fsanitize=address,undefined', '-fno-sanitize-recover=undefined']   # datasets.c is static tables; ASan instrumentation of it takes minutes
-            cmd = ['gcc', '-c', '-g', '-O0', '-fno-omit-frame-pointer', '-w'] + san + self.cflags() + [os.path.join(SRC, tu + '.c'), '-o', out]
+            cmd = ['gcc', '-c', '-g', '-O0', '-fno-omit-frame-pointer', '-w'] + san + NATIVE_RENAMES + self.cflags() + [os.path.join(SRC, tu + '.c'), '-o', out]
             rc, o, e, _ = sh(cmd, timeout=300)
             if rc != 0: raise BuildError(f'gcc {tu}.c failed:\n{e[-2000:]}')
             return out
@@ -220,9 +227,15 @@ class Ctx:
         srcs = [os.path.join(HARNESS, ob.harness)] + [os.path.join(HARNESS, 'stubs', s) for s in ob.stubs if not s.startswith('sym_')]
         objs = self.native_lib()
         # harness/stub definitions come first and win over the library's (real functions the harness replaces)
-        rc, o, e, _ = sh(cc + srcs + objs + ['-Wl,--allow-multiple-definition', '-o', exe, '-lm', '-llapack', '-lblas', '-lpthread'], timeout=300)
+        shim = os.path.join(HARNESS, 'stubs', 'native_pthread_shim.c')
+        rc, o, e, _ = sh(cc + NATIVE_RENAMES + srcs + objs + [shim, '-Wl,--allow-multiple-definition', '-o', exe, '-lm', '-llapack', '-lblas', '-lpthread'], timeout=300)
         if rc != 0: raise BuildError(f'native link {ob.id} failed:\n{(o+e)[-3000:]}')
         return exe
+
+
+# in native replays the library's thread calls are routed through lsv_pthread_* so that a harness model can replace them
+# without touching the sanitizer runtime's own use of pthread_create (default: stubs/native_pthread_shim.c forwards to libpthread)
+NATIVE_RENAMES = ['-Dpthread_create=lsv_pthread_create', '-Dpthread_join=lsv_pthread_join', '-Dpthread_exit=lsv_pthread_exit']
 
 
 def library_tus():
